@@ -53,6 +53,9 @@ struct Side {
     close: Close,
     /// abortive: drop the whole stream after this many read ops (safety only)
     abort_after_reads: Option<usize>,
+    /// stop reading once this many bytes (everything the peer writes) were read,
+    /// i.e. never consume the peer's FIN, then drop: still a graceful close
+    stop_after_bytes: Option<u64>,
 }
 
 #[derive(Clone, Copy, Debug, PartialEq)]
@@ -98,6 +101,7 @@ enum Ev {
     ShutdownDone { dir: u8, ok: bool },
     ConnErr { kind: String },
     Aborted { side: u8 },
+    StoppedReading { dir: u8 },
 }
 
 fn key(seed: u64, dir: u8) -> u64 {
@@ -135,10 +139,17 @@ impl Rd for TcpStream {
 }
 
 /// Reads until EOF / error / abort point. Returns true when it stopped for abort.
-async fn reader<R: Rd>(r: &mut R, ops: &[ROp], dir: u8, log: &Log<Ev>, abort_after: Option<usize>) -> bool {
+async fn reader<R: Rd>(r: &mut R, ops: &[ROp], dir: u8, log: &Log<Ev>, abort_after: Option<usize>, stop_after_bytes: Option<u64>) -> bool {
     let mut i = 0usize;
     let mut nreads = 0usize;
+    let mut total = 0u64;
     loop {
+        if let Some(n) = stop_after_bytes {
+            if total >= n {
+                log.push(Ev::StoppedReading { dir });
+                return false;
+            }
+        }
         if let Some(a) = abort_after {
             if nreads >= a {
                 return true;
@@ -163,7 +174,10 @@ async fn reader<R: Rd>(r: &mut R, ops: &[ROp], dir: u8, log: &Log<Ev>, abort_aft
                         }
                         return false;
                     }
-                    Ok(k) => log.push(Ev::Read { dir, data: buf[..k].to_vec(), buf: n }),
+                    Ok(k) => {
+                        total += k as u64;
+                        log.push(Ev::Read { dir, data: buf[..k].to_vec(), buf: n })
+                    }
                     Err(e) => {
                         log.push(Ev::RErr { dir, kind: format!("{:?}", e.kind()) });
                         return false;
@@ -293,7 +307,7 @@ async fn drive_side(stream: TcpStream, side: Side, wdir: u8, seed: u64, log: Log
                 }
                 drop(w);
             });
-            let aborted = reader(&mut r, &side.rops, rdir, &log, side.abort_after_reads).await;
+            let aborted = reader(&mut r, &side.rops, rdir, &log, side.abort_after_reads, side.stop_after_bytes).await;
             if aborted {
                 log.push(Ev::Aborted { side: wdir });
                 wt.abort();
@@ -310,6 +324,7 @@ async fn drive_side(stream: TcpStream, side: Side, wdir: u8, seed: u64, log: Log
             let l3 = log.clone();
             let wops = side.wops.clone();
             let rops = side.rops.clone();
+            let stop_after = side.stop_after_bytes;
             let wf = async move {
                 if writer(&mut w, &wops, wdir, seed, &l2).await {
                     let r = w.shutdown().await;
@@ -318,7 +333,7 @@ async fn drive_side(stream: TcpStream, side: Side, wdir: u8, seed: u64, log: Log
                 w
             };
             let rf = async move {
-                reader(&mut r, &rops, rdir, &l3, None).await;
+                reader(&mut r, &rops, rdir, &l3, None, stop_after).await;
                 r
             };
             let (w, r) = tokio::join!(wf, rf);
@@ -330,7 +345,7 @@ async fn drive_side(stream: TcpStream, side: Side, wdir: u8, seed: u64, log: Log
                 let r = stream.shutdown().await;
                 log.push(Ev::ShutdownDone { dir: wdir, ok: r.is_ok() });
             }
-            let aborted = reader(&mut stream, &side.rops, rdir, &log, side.abort_after_reads).await;
+            let aborted = reader(&mut stream, &side.rops, rdir, &log, side.abort_after_reads, side.stop_after_bytes).await;
             if aborted {
                 log.push(Ev::Aborted { side: wdir });
             }
@@ -375,6 +390,7 @@ fn gen_side(r: &mut Rng, allow_whole: bool, writes: bool) -> Side {
         rops,
         close: if r.coin() { Close::Shutdown } else { Close::DropWriteHalf },
         abort_after_reads: None,
+        stop_after_bytes: None,
     }
 }
 
@@ -410,6 +426,14 @@ fn gen(seed: u64) -> Scn {
                 }
             }
             _ => {}
+        }
+    }
+    if matches!(fault, Fault::None) && client.abort_after_reads.is_none() && server.abort_after_reads.is_none() && r.chance(0.3) {
+        let total = |side: &Side| -> u64 { side.wops.iter().map(|o| match o { WOp::Write(n) | WOp::WriteAll(n) | WOp::Try(n) => *n as u64, _ => 0 }).sum() };
+        if r.coin() {
+            client.stop_after_bytes = Some(total(&server));
+        } else {
+            server.stop_after_bytes = Some(total(&client));
         }
     }
     if client.mode == Mode::IoSplit {
@@ -605,6 +629,7 @@ fn check(s: &Scn, ex: &Exec, out: &mut ScenarioOut, tag: &str) {
         let mut accepted = 0u64;
         let mut pos = 0u64;
         let mut eof = false;
+        let mut stopped = false;
         let mut rerr: Option<String> = None;
         for (step, e) in &ex.evs {
             match e {
@@ -666,6 +691,10 @@ fn check(s: &Scn, ex: &Exec, out: &mut ScenarioOut, tag: &str) {
                         out.count("peek_saw_eof", 1);
                     }
                 }
+                Ev::StoppedReading { dir: d } if *d == dir => {
+                    stopped = true;
+                    out.count("readers_stopped_before_eof", 1);
+                }
                 Ev::Eof { dir: d } if *d == dir => {
                     eof = true;
                     out.count("eof_observed", 1);
@@ -697,7 +726,7 @@ fn check(s: &Scn, ex: &Exec, out: &mut ScenarioOut, tag: &str) {
             );
         }
         if healthy {
-            if pos != accepted || !eof {
+            if pos != accepted || (!eof && !stopped) {
                 let class = if pos != accepted { "bytes-missing" } else { "eof-missing" };
                 out.violate(
                     class,
@@ -809,14 +838,14 @@ fn perm_scenario(p: Perm) -> ScenarioOut {
                         lg.push(Ev::ShutdownDone { dir: wdir, ok: r2.is_ok() });
                     }
                     // then read the peer's EOF
-                    reader(&mut r, &[ROp::Read(64)], 1 - wdir, &lg, None).await;
+                    reader(&mut r, &[ROp::Read(64)], 1 - wdir, &lg, None, None).await;
                 } else {
                     let _ = w.shutdown().await;
                     if idle {
                         let now = turmoil::elapsed().as_millis() as u64;
                         tokio::time::sleep(Duration::from_millis(deliveries_done_ms.saturating_sub(now))).await;
                     }
-                    reader(&mut r, &[ROp::Read(3), ROp::Read(64)], wdir, &lg, None).await;
+                    reader(&mut r, &[ROp::Read(3), ROp::Read(64)], wdir, &lg, None, None).await;
                 }
                 drop(w);
             }
@@ -905,8 +934,8 @@ fn perm_scenario(p: Perm) -> ScenarioOut {
         peer: Peer::Remote,
         random_order: false,
         rng_seed: p.rng_seed,
-        client: Side { mode: Mode::Owned, wops: vec![], rops: vec![], close: Close::Shutdown, abort_after_reads: None },
-        server: Side { mode: Mode::Owned, wops: vec![], rops: vec![], close: Close::Shutdown, abort_after_reads: None },
+        client: Side { mode: Mode::Owned, wops: vec![], rops: vec![], close: Close::Shutdown, abort_after_reads: None, stop_after_bytes: None },
+        server: Side { mode: Mode::Owned, wops: vec![], rops: vec![], close: Close::Shutdown, abort_after_reads: None, stop_after_bytes: None },
         fault: Fault::None,
     };
     let ex = Exec { evs, result, overtakes: 0, steps: 0 };
@@ -1021,6 +1050,6 @@ fn fin() -> Finish<'static> {
             "delivery half only asserted for graceful closes on healthy (or held-then-released) links".into(),
         ],
         min_distinct: 100,
-        required_counters: vec!["reordered_permutations", "fin_arrives_while_queue_full_cases", "segments_overtaken_directions", "wouldblock_observed", "peeks", "empty_buffer_reads", "eof_observed", "zero_length_writes", "ipv6_scenarios"],
+        required_counters: vec!["reordered_permutations", "fin_arrives_while_queue_full_cases", "segments_overtaken_directions", "wouldblock_observed", "peeks", "empty_buffer_reads", "eof_observed", "zero_length_writes", "ipv6_scenarios", "readers_stopped_before_eof"],
     }
 }
